@@ -6,6 +6,8 @@
  *        pmark=<+|0 per chunk>: the context first sees the target in marking pmark (scan, reset, one missing-range request
  *        whose result is dropped), then the file is rewritten to marking mark, scanned and reset again - the judged
  *        request is the second one on the same context
+ *        detached=1: the context is opened from B's detached header (identifier ZHR1, header followed by the dictionary's stored
+ *        bytes where marked '+'); the scan then concerns the dictionary only and every other chunk stays missing
  *        '!' = failed: after scan and reset, zck_copy_chunks from the source fsrc (written by the reference writer: it
  *        lists exactly the '!' chunks with their digests and sizes, but holds other bytes), which leaves them failed
  * flow per case (public API only): the target gets B's header and exactly the chunks marked '+' (zeros elsewhere);
@@ -17,7 +19,7 @@
  */
 #include "drv.h"
 
-typedef struct { blob *file; char *mark; int limit, noscan, feed; blob fsrc; char *pmark; } gcase;
+typedef struct { blob *file; char *mark; int limit, noscan, feed; blob fsrc; char *pmark; int detached; } gcase;
 typedef struct { gcase *cases; int n; } gctx;
 
 static void run_one(int idx, FILE *out, void *vctx) {
@@ -44,6 +46,13 @@ static void run_one(int idx, FILE *out, void *vctx) {
         for(zckChunk *ch = zck_get_first_chunk(b); ch; ch = zck_get_next_chunk(ch), i++)
             if(k->pmark[i] == '+')
                 memcpy(pre.p + zck_get_chunk_start(ch), k->file->p + zck_get_chunk_start(ch), zck_get_chunk_comp_size(ch));
+    }
+    if(k->detached) {
+        /* header under the other identifier + the dictionary's stored bytes */
+        zckChunk *d0 = zck_get_first_chunk(b);
+        size_t dn = hl + (d0 ? (size_t)zck_get_chunk_comp_size(d0) : 0);
+        memcpy(tgt.p, "\0ZHR1", 5);
+        tgt.n = dn;
     }
     zck_free(&b);
     real_close(bfd);
@@ -149,7 +158,7 @@ int cmd_ranges(FILE *job, FILE *out) {
         else if(!strcmp(t[0], "case")) {
             if(!file) die("ranges: case before file");
             if(c.n >= cap) { cap = cap ? cap * 2 : 1024; c.cases = realloc(c.cases, cap * sizeof *c.cases); }
-            gcase k = {file, strdup(kv(t, n, "mark", "")), (int)kvi(t, n, "limit", -1), (int)kvi(t, n, "noscan", 0), (int)kvi(t, n, "feed", 1), blob_arg(kv(t, n, "fsrc", "-")), kv(t, n, "pmark", NULL) ? strdup(kv(t, n, "pmark", "")) : NULL};
+            gcase k = {file, strdup(kv(t, n, "mark", "")), (int)kvi(t, n, "limit", -1), (int)kvi(t, n, "noscan", 0), (int)kvi(t, n, "feed", 1), blob_arg(kv(t, n, "fsrc", "-")), kv(t, n, "pmark", NULL) ? strdup(kv(t, n, "pmark", "")) : NULL, (int)kvi(t, n, "detached", 0)};
             c.cases[c.n++] = k;
         } else die("ranges: bad line %s", t[0]);
         free(t);
